@@ -36,7 +36,7 @@ var c08Keys = []c08Key{
 	{"snr", "5", "int", nil}, {"ato", "1.0", "float", nil}, {"ltgt", "2000", "int", nil}, {"spd", "10", "int", nil}, {"sidx", "1", "flag", nil},
 	{"segtimelineloss", "1", "flag", nil}, {"chunkdur", "0.5", "float", []string{"-1"}}, {"timesubsstpp", "en,sv", "str", nil}, {"timesubswvtt", "en", "str", nil},
 	{"timesubsdur", "800", "int", nil}, {"timesubsreg", "1", "int", []string{"2", "-1"}}, {"statuscode", "[{cycle:30,rsq:0,code:404,rep:video}]", "str", nil},
-	{"traffic", "u20d10", "str", nil}, {"drm", "EZDRM-1-key-cbcs", "str", nil}, {"eccp", "cenc", "str", nil}, {"patch", "60", "int", nil}, {"annexI", "a=1,b=2", "str", nil},
+	{"traffic", "u20d10", "str", nil}, {"drm", "EZDRM-1-key-cbcs-test", "str", nil}, {"eccp", "cenc", "str", nil}, {"patch", "60", "int", nil}, {"annexI", "a=1,b=2", "str", nil},
 	{"modulo", "10", "int", nil},
 }
 
@@ -231,7 +231,7 @@ func TestVerifC08(t *testing.T) {
 			}
 		}
 		// DRM on assets that cannot be encrypted (HEVC / AC-3), unknown DRM names, every endpoint kind
-		for _, d := range []string{"eccp_cenc", "eccp_cbcs", "drm_EZDRM-1-key-cbcs", "drm_nope", "eccp_nope", "drm_"} {
+		for _, d := range []string{"eccp_cenc", "eccp_cbcs", "drm_EZDRM-1-key-cbcs-test", "drm_nope", "eccp_nope", "drm_"} {
 			for _, ep := range []string{"manifest.mpd", "video_init.mp4", "audio_init.mp4", "video_12.m4s", "audio_12.m4s", "video_init.mp4", "video_1228800.m4s", "audio_1152000.m4s"} {
 				for _, extra := range [][]string{{}, {"chunkdur_0.5", "ato_1"}} {
 					p := append([]string{d}, extra...)
